@@ -299,6 +299,34 @@ func c19Signed(pool *ModelPool, v *Verdict, rng *RNG, name string, bufs []pacBuf
 			cmp(m, "wrong-declared-type", d, key, "err")
 		}
 	}
+	// the declared type stays, but the signature is made with the checksum of another family that has the
+	// same signature length (15 <-> 16) under a key of that family: the declared type decides, so this is
+	// not a valid signature
+	if sty == 15 || sty == 16 {
+		oet := int32(18)
+		if sty == 16 {
+			oet = 17
+		}
+		okey := types.EncryptionKey{KeyType: oet, KeyValue: randKey(rng, oet)}
+		zeroed := append([]byte{}, data...)
+		var at int
+		for i, bf := range bufs {
+			if bf.ty == 6 || bf.ty == 7 {
+				for j := offs[i] + 4; j < offs[i]+4+pacSigLen(sty) && j < len(zeroed); j++ {
+					zeroed[j] = 0
+				}
+				if bf.ty == 6 {
+					at = offs[i] + 4
+				}
+			}
+		}
+		ans := m.Ask(fmt.Sprintf("cr.cksum %d %s 17 %s", oet, X(okey.KeyValue), X(zeroed)))
+		if strings.HasPrefix(ans, "ok ") && at > 0 {
+			d := append([]byte{}, data...)
+			copy(d[at:at+12], UnX(ans[3:]))
+			cmp(m, "other-family-signature-under-declared-type", d, okey, "err")
+		}
+	}
 	// each buffer removed / duplicated; order permuted (re-signed where the PAC stays well-formed)
 	for i := range bufs {
 		rm := append(append([]pacBuf{}, bufs[:i]...), bufs[i+1:]...)
